@@ -7,7 +7,7 @@ from hypothesis import strategies as st
 from pbt import strategies as S
 from pbt.common import Stats, Sub, Violation
 from pbt.model import Model, uri_prefixes_of
-from pbt.sut import Converter, case_insensitive_build_is_equivalent, mk_incremental_queried, mk_record, mk_records, mk_bystander, mk_remerged, mk_split_merge
+from pbt.sut import Converter, case_insensitive_build_is_equivalent, mk_incremental_queried, mk_record, mk_records, mk_after_rejected_calls, mk_bystander, mk_remerged, mk_split_merge
 
 PROPERTY_ID = "C01"
 RULE = (
@@ -73,6 +73,7 @@ def _variants(case):
     out["split-and-merged"] = mk_split_merge(spec)
     if case_insensitive_build_is_equivalent(spec):
         out["re-merged-into-itself-case-insensitively"] = mk_remerged(spec)
+    out["after-calls-that-must-be-rejected"] = mk_after_rejected_calls(spec)
     out["by-standing input of chain / get_subconverter / remap_* / rewire / discover"] = mk_bystander(spec)
     if case_insensitive_build_is_equivalent(spec):
         # synonyms that are case variants of strings of their OWN record arrive through case-insensitive merges
